@@ -283,6 +283,23 @@ class Repo:
                 self.n_inlined += inline_helpers(tree, counts)
                 canonicalise_guards(tree)
                 canonicalise_quantifiers(tree)
+        # functions / methods defined exactly once in the package: a call `f(...)`, `self.f(...)`, `Cls.f(...)` of such a name denotes that definition
+        defs_by_name: Dict[str, List[ast.AST]] = {}
+        for _, _, _, _, tree, _ in parsed:
+            for n in ast.walk(tree):
+                if isinstance(n, (ast.FunctionDef, ast.AsyncFunctionDef)):
+                    defs_by_name.setdefault(n.name, []).append(n)
+        self.unique_defs = {k: v[0] for k, v in defs_by_name.items() if len(v) == 1}
+
+        def _resolve_unique(call: ast.Call, _u=self.unique_defs):
+            f = call.func
+            if isinstance(f, ast.Name):
+                return _u.get(f.id)
+            if isinstance(f, ast.Attribute) and isinstance(f.value, ast.Name) and (f.value.id in ("self", "cls") or f.value.id[:1].isupper()):
+                return _u.get(f.attr)
+            return None
+        from . import domains as _domains
+        _domains.set_resolver(_resolve_unique)
         for modname, path, rel, src, tree, is_pkg in parsed:
             if os.environ.get("AGILINT_CANON", "1") != "0":
                 canonicalise_comparisons(tree)
